@@ -545,12 +545,12 @@ func (wb *writeBuffer) writeMessage(offset int64, attributes int8, time time.Tim
 
 // Messages with magic >2 are called records. This method writes messages using message format 2.
 func (wb *writeBuffer) writeRecord(attributes int8, baseTime time.Time, offset int64, msg Message) {
-	timestampDelta := msg.Time.Sub(baseTime)
+	timestampDelta := timestamp(msg.Time) - timestamp(baseTime)
 	offsetDelta := int64(offset)
 
 	wb.writeVarInt(int64(recordSize(&msg, timestampDelta, offsetDelta)))
 	wb.writeInt8(attributes)
-	wb.writeVarInt(int64(milliseconds(timestampDelta)))
+	wb.writeVarInt(timestampDelta)
 	wb.writeVarInt(offsetDelta)
 
 	wb.writeVarBytes(msg.Key)
